@@ -68,7 +68,8 @@ structure Dsg (α : Type) where
 
 /-- one step of a history -/
 inductive HOp (α : Type) where
-  /-- the call that builds design `j` (draws nothing: everything is lazy) -/
+  /-- the call that builds design `j` (draws nothing: everything is lazy — also when the call
+  raises half-way, e.g. for a non-integer comb delay; such a design is never read) -/
   | build (j : Nat)
   /-- the next instant of every coefficient of design `j` is read -/
   | take (j : Nat)
